@@ -32,8 +32,26 @@ class Sim:
         self.now = self.t0
         self.dir = tempfile.mkdtemp(prefix='jugverif-c19-')
         Sim.ALL.append(self)
-        self.path = os.path.join(self.dir, 'LOCK')
-        open(self.path, 'w').close()
+        # the lock file is made by the real lock class (whatever it writes into it: today the pid and host name of the process that took it). That process - this
+        # one - is alive throughout, as is any process that happens to have got the pid of a worker that died long ago
+        import jug.backends.file_store as _fs
+        _saved_popen = _fs.Popen
+
+        class _NoHelper:
+            def __init__(self, *a, **k):
+                pass
+
+            def kill(self):
+                pass
+        _fs.Popen = _NoHelper
+        try:
+            _lk = _fs.file_keepalive_based_lock(self.dir, 'b' * 40)
+            if not _lk.get():
+                raise core.InfraError('cannot take a fresh keep-alive lock')
+            _lk.monitor = None
+            self.path = _lk.fullname
+        finally:
+            _fs.Popen = _saved_popen
         _REAL['utime'](self.path, (self.t0, self.t0))
         self.deltas = deltas            # callable(round) -> overshoot
         self.death, self.removal, self.horizon = death, removal, horizon
@@ -167,30 +185,16 @@ def run_monitor(sim):
 
 
 def real_is_failed(sim, at):
-    """the real file_keepalive_based_lock.is_failed() with time/stat/exists taken from the simulation"""
+    """the real file_keepalive_based_lock.is_failed() of another client on the simulation's real lock file, with the clock at `at` seconds"""
     import jug.backends.file_store as fs
-    lock = fs.file_keepalive_based_lock('JD', 'name')
-    saved = (fs.time, fs.os, fs.path, fs.exists)
-
-    class O:
-        def __getattr__(self, n):
-            return getattr(os, n)
-
-        def stat(self, p):
-            return types.SimpleNamespace(st_mtime=sim.mtime)
-
-    class Pth:
-        def __getattr__(self, n):
-            return getattr(os.path, n)
-
-        def exists(self, p):
-            return sim.exists
+    lock = fs.file_keepalive_based_lock(sim.dir, 'b' * 40)
+    assert os.path.abspath(lock.fullname) == os.path.abspath(sim.path)
+    saved = fs.time
     fs.time = lambda: sim.t0 + at
-    fs.os, fs.path, fs.exists = O(), Pth(), (lambda p: sim.exists)
     try:
         return bool(lock.is_failed())
     finally:
-        fs.time, fs.os, fs.path, fs.exists = saved
+        fs.time = saved
 
 
 def collapse(calls):
@@ -391,6 +395,31 @@ def check(run):
                  'worker is reported failed although it is alive and `cleanup --failed-only` would hand its task to somebody else'
                  % ('ended after %d s' % st[1] if st[0] == 'exited' else 'runs', 'refreshed %d times' % len(sim.refreshes) if sim.refreshes else 'never refreshed', sim.max_age, E),
                  {'kind': 'pid1-worker', 'horizon': 3 * E})
+    # 2c. the helper cannot be started (no more processes / memory at that moment): a lock that nobody will refresh must not be handed out as if nothing had happened -
+    #     get() reports the error (the worker does not start the task), or it does not claim the lock
+    import errno as _errno
+    import jug.backends.file_store as _fs
+    _saved_popen = _fs.Popen
+
+    def _no_fork(*a, **k):
+        raise OSError(_errno.EAGAIN, 'Resource temporarily unavailable')
+    _d = core.scratch_dir()
+    try:
+        _fs.Popen = _no_fork
+        _lk = _fs.file_keepalive_based_lock(_d, 'c' * 40)
+        try:
+            got = bool(_lk.get())
+            err = None
+        except OSError as e:
+            got, err = None, e
+        run.case(('helper-cannot-start',), nontrivial=True)
+        run.count('helper_spawn_failures')
+        if got is True and getattr(_lk, 'monitor', None) is None:
+            run.fail('lock-without-helper', 'the keep-alive helper could not be started (fork fails with EAGAIN): get() nevertheless returns True - the worker goes on with a lock that '
+                     'nobody refreshes, is reported failed after %d s although it is alive, and `cleanup --failed-only` hands its task to somebody else' % E, {'kind': 'helper-cannot-start'})
+    finally:
+        _fs.Popen = _saved_popen
+        core.rm_rf(_d)
     # 3. external removal of the lock file
     for removal in ([10, 299, 300, 301, 1000] if quick else list(range(0, 2 * R * P, 13))):
         sim = Sim(lambda r: 0.5, removal=removal)
